@@ -115,6 +115,12 @@ class CR:
     def __rtruediv__(a, b): return a._bin(b, 'div', _div, True)
     def __neg__(a): return CR(-a.v, lift(-a.v) if (a.n.op == 'const' and not isinstance(a.v, float)) else Node('neg', a.n))
     def __pos__(a): return a
+
+    def __bool__(a):
+        # Python truthiness of a number (`if x:`, `not x`, `x or y`): a branch on x != 0 like any other
+        if a.n.op == 'const':
+            return a.v != 0
+        return bool(SymBool(a.v != 0, Node('not', Node('eq', a.n, lift(0)))))
     def __abs__(a): return CR(abs(a.v), Node('abs', a.n))
 
     def __and__(a, mask):
